@@ -178,8 +178,12 @@ Ltac ev :=
     return hdr + "\n".join(goals) + "\n"
 
 
-def traced_model(ctx, rng):
-    """End to end: real FreeEnergy tables traced on the closed-form quartic potential."""
+def traced_model(ctx, rng, variant=0):
+    """End to end: real FreeEnergy tables traced on the closed-form quartic potential.
+    variant 0: paranoid tracing, then a HISTORY on the same objects (limits lifted,
+    both phases re-traced over wider windows, setExtrapolate again);
+    variant 1: non-paranoid tracing with a very tight tolerance (the re-minimisation
+    branch of the tracer fires at most steps)."""
     import WallGo
     from WallGo import Fields, Thermodynamics
     D = rng.choice([0.15, 0.2, 0.3])
@@ -192,27 +196,51 @@ def traced_model(ctx, rng):
         temperatureVariationScale=1.0, fieldValueVariationScale=10.0))
     Tn = 0.5 * (ex["Tc"] + T0)
     th = Thermodynamics(pot, Tn, Fields([ex["phi_broken"](Tn)]), Fields([0.0]))
-    # different windows for the two phases (the ends then do not coincide)
     dT = 0.004 * Tn
-    th.freeEnergyHigh.tracePhase(T0 + 0.5, ex["Tspin_broken"] * rng.uniform(1.0, 1.2),
-                                 dT, rTol=1e-8)
-    th.freeEnergyLow.tracePhase(0.8 * T0 * rng.uniform(0.9, 1.0),
-                                ex["Tspin_broken"] * 0.999, dT, rTol=1e-8)
-    th.setExtrapolate()
-    case = dict(model="quartic1", D=D, E=E, lam=lam, T0=T0, Tn=Tn)
-    direct_checks(ctx, th, "traced", case)
-    # p = -Veff at the (closed-form) minimum inside the range
-    for ph, phi in (("High", lambda T: 0.0), ("Low", ex["phi_broken"])):
-        lo, hi = getattr(th, "TMin" + ph + "T"), getattr(th, "TMax" + ph + "T")
-        for x in (0.05, 0.3, 0.6, 0.95):
-            T = lo + (hi - lo) * x
-            want = -ex["V"](phi(T), T)
-            got = float(getattr(th, "p" + ph + "T")(T))
-            ctx.count("p_in_range_traced")
-            if abs(got - want) > 1e-7 * abs(want):
-                ctx.fail_input("p%sT(%g) = %r but -Veff(min) = %r" % (ph, T, got, want),
-                               dict(kind="p_in_range", case=case, T=T, got=got,
-                                    want=want), key="p-in-range:" + ph)
+    paranoid = variant == 0
+    rTol = 1e-8 if variant == 0 else 1e-12
+    case = dict(model="quartic1", D=D, E=E, lam=lam, T0=T0, Tn=Tn, paranoid=paranoid,
+                rTol=rTol)
+
+    def check(stage):
+        th.setExtrapolate()
+        c2 = dict(case, stage=stage)
+        direct_checks(ctx, th, "traced", c2)
+        # p = -Veff at the (closed-form) minimum inside the range: between nodes and AT
+        # the table nodes themselves
+        for ph, phi, fe in (("High", lambda T: 0.0, th.freeEnergyHigh),
+                            ("Low", ex["phi_broken"], th.freeEnergyLow)):
+            lo, hi = getattr(th, "TMin" + ph + "T"), getattr(th, "TMax" + ph + "T")
+            nodes = [float(t) for t in np.asarray(fe._interpolationPoints).ravel()
+                     if lo <= t <= hi]
+            pick = nodes[::max(1, len(nodes) // 12)]
+            for T in [lo + (hi - lo) * x for x in (0.05, 0.3, 0.6, 0.95)] + pick:
+                want = -ex["V"](phi(T), T)
+                got = float(getattr(th, "p" + ph + "T")(T))
+                ctx.count("p_in_range_traced")
+                if abs(got - want) > 1e-7 * abs(want):
+                    ctx.fail_input(
+                        "p%sT(%g) = %r but -Veff(min) = %r [%s]" % (ph, T, got, want,
+                                                                     stage),
+                        dict(kind="p_in_range", case=c2, T=T, got=got, want=want),
+                        key="p-in-range:" + ph)
+                    return
+
+    # different windows for the two phases (the ends then do not coincide)
+    th.freeEnergyHigh.tracePhase(T0 + 0.5, ex["Tspin_broken"] * rng.uniform(1.0, 1.1),
+                                 dT, rTol=rTol, paranoid=paranoid)
+    th.freeEnergyLow.tracePhase(0.9 * T0 * rng.uniform(0.95, 1.0),
+                                ex["Tspin_broken"] * 0.999, dT, rTol=rTol,
+                                paranoid=paranoid)
+    check("first trace")
+    if variant == 0:
+        # history: lift the limits and trace again, wider, on the SAME objects
+        for fe in (th.freeEnergyHigh, th.freeEnergyLow):
+            fe.minPossibleTemperature = [0.0, False]
+            fe.maxPossibleTemperature = [np.inf, False]
+        th.freeEnergyHigh.tracePhase(T0 + 0.5, ex["Tspin_broken"] * 1.3, dT, rTol=rTol)
+        th.freeEnergyLow.tracePhase(0.6 * T0, ex["Tspin_broken"] * 0.999, dT, rTol=rTol)
+        check("re-traced wider on the same objects")
     ctx.sample(dict(traced=case, ranges=[th.TMinHighT, th.TMaxHighT, th.TMinLowT,
                                          th.TMaxLowT]))
 
@@ -284,9 +312,9 @@ def run(ctx):
             mm = re.search(r"line (\d+)", err)
             ctx.log("model", json.dumps(case))
     # --- traced potentials ------------------------------------------------------------
-    for _ in range(ctx.n(1, 8)):
+    for it in range(ctx.n(2, 10)):
         try:
-            traced_model(ctx, rng)
+            traced_model(ctx, rng, variant=it % 2)
         except Exception as ex:
             import traceback
             ctx.log("traced model raised", traceback.format_exc())
